@@ -1110,6 +1110,8 @@ class Interp(object):
         if v is None and name not in ('__class__',):
             self.raise_py(AttributeError, "'NoneType' object has no attribute '%s'" % name)
         if isinstance(v, Obj):
+            if v.meta.get('track_reads') and name in v.meta['track_reads']:
+                self.path.event('field.read', id(v), name)
             if name in v.fields:
                 return v.fields[name]
             lazy = v.meta.get('lazy')
@@ -1502,6 +1504,11 @@ class Interp(object):
             return self.call_closure(f, args, kwargs)
         if isinstance(f, Opaque):
             return self.models.opaque_call(self, f, args, kwargs)
+        if isinstance(f, Obj):
+            m = self._class_attr(f.cls, '__call__')
+            if m is None:
+                self.raise_py(TypeError, "'%s' object is not callable" % f.cls.__name__)
+            return self.call_value(BoundMethod(f, m), args, kwargs, node, env)
         if f is None:
             self.raise_py(TypeError, "'NoneType' object is not callable")
         model = self.models.lookup_model(f)
@@ -1601,12 +1608,23 @@ class Interp(object):
         wrapped = self.models.decorator_model(self, fn, ex)
         if wrapped is not None:
             return wrapped(self, ex, args, kwargs)
+        if getattr(fn, '__closure__', None):
+            # closure (decorator wrapper): its free variables come from the live cells
+            free = {}
+            for nm, cell in zip(fn.__code__.co_freevars, fn.__closure__):
+                try:
+                    free[nm] = cell.cell_contents
+                except ValueError:
+                    pass
+            return self.run_body(ex, args, kwargs, closure=free)
         return self.run_body(ex, args, kwargs)
 
-    def run_body(self, ex, args, kwargs, pre_bound=None):
+    def run_body(self, ex, args, kwargs, pre_bound=None, closure=None):
         if self.depth > self.MAX_DEPTH:
             raise OutOfFragment("call depth exceeded at %s" % ex.qualname)
         env = Env({}, ex.module.__dict__, ex.cls, ex.qualname, ex)
+        if closure:
+            env.locals.update(closure)
         if pre_bound is not None:
             env.locals.update(pre_bound)
         else:
